@@ -24,19 +24,22 @@ const (
 	tRunning
 	tParked
 	tDone
-	tDead // belongs to a crashed node: never resumed again
+	tDead    // belongs to a crashed node: never resumed again
+	tBlocked // running but waiting for something another task holds (mutex, pooled connection)
 )
 
 type Task struct {
-	ID       int
-	Name     string
-	Group    string // node incarnation the task belongs to
-	state    taskState
-	parkedAt string
-	resume   chan struct{}
-	Result   any
-	Daemon   bool // persistent worker (dispatcher): parks between cycles
-	Idle     bool // daemon parked at its idle point (nothing in flight)
+	ID        int
+	Name      string
+	Group     string // node incarnation the task belongs to
+	state     taskState
+	parkedAt  string
+	resume    chan struct{}
+	Result    any
+	Daemon    bool // persistent worker (dispatcher): parks between cycles
+	Idle      bool // daemon parked at its idle point (nothing in flight)
+	goid      uint64
+	blockedAt string // wait state and call chain where the task was judged blocked
 }
 
 func (t *Task) ParkedAt() string { return t.parkedAt }
@@ -64,6 +67,13 @@ type Sched struct {
 	adoptSeq   int
 	Trouble    string
 	Switches   int
+	// DetectBlocked: a resumed task that stops in a Go wait state (mutex,
+	// channel, select) instead of reaching a point is reported as "blocked";
+	// it stays out of the runnable set until it parks by itself.
+	DetectBlocked bool
+	Steps         int            // scheduling decisions taken so far (history stamps)
+	OnDecision    func(step int) // called by InterleaveBlocking before each decision
+	Blocks        int
 }
 
 func NewSched() *Sched {
@@ -114,6 +124,7 @@ func (s *Sched) Go(name, group string, fn func() any) *Task {
 		g := goid()
 		s.mu.Lock()
 		s.byGoid[g] = t
+		t.goid = g
 		s.mu.Unlock()
 		<-t.resume
 		res := fn()
@@ -229,17 +240,148 @@ func (s *Sched) Step(t *Task) string {
 		return "trouble"
 	}
 	t.state = tRunning
+	s.Steps++
 	s.Trace = append(s.Trace, t.Name+"@"+t.parkedAt)
 	s.mu.Unlock()
 	t.resume <- struct{}{}
 	return s.wait(t)
 }
 
+// goroutineWaitState returns the bracketed state of goroutine g in a full
+// stack dump ("semacquire", "select", "running", ...), "" if it is gone, and
+// the call chain it sits in (function names only).
+func goroutineWaitState(g uint64) (string, string) {
+	buf := make([]byte, 512<<10)
+	n := runtime.Stack(buf, true)
+	dump := string(buf[:n])
+	key := "goroutine " + strconv.FormatUint(g, 10) + " ["
+	i := strings.Index(dump, key)
+	for i > 0 && dump[i-1] != '\n' {
+		j := strings.Index(dump[i+1:], key)
+		if j < 0 {
+			return "", ""
+		}
+		i += 1 + j
+	}
+	if i < 0 {
+		return "", ""
+	}
+	rest := dump[i+len(key):]
+	end := strings.IndexAny(rest, ",]")
+	if end < 0 {
+		return "", ""
+	}
+	state := rest[:end]
+	block := rest
+	if k := strings.Index(rest, "\n\n"); k >= 0 {
+		block = rest[:k]
+	}
+	var chain []string
+	for _, ln := range strings.Split(block, "\n")[1:] {
+		if strings.HasPrefix(ln, "\t") || ln == "" {
+			continue
+		}
+		if k := strings.LastIndex(ln, "("); k > 0 {
+			ln = ln[:k]
+		}
+		chain = append(chain, ln)
+	}
+	return state, strings.Join(chain, "<")
+}
+
+func isBlockedState(st string) bool {
+	switch st {
+	case "semacquire", "sync.Mutex.Lock", "sync.RWMutex.Lock", "sync.RWMutex.RLock", "sync.Cond.Wait",
+		"sync.WaitGroup.Wait", "select", "chan receive", "chan send", "select (no cases)":
+		return true
+	}
+	return false
+}
+
+// stablyBlocked: t's goroutine sits in the same wait state at the same place on
+// consecutive looks. The place is remembered: as long as the task is found
+// there again it is still waiting for the same thing.
+func (s *Sched) stablyBlocked(t *Task) bool {
+	first, firstSig := "", ""
+	for i := 0; i < 5; i++ {
+		ws, sig := goroutineWaitState(t.goid)
+		if !isBlockedState(ws) || (first != "" && (ws != first || sig != firstSig)) {
+			return false
+		}
+		first, firstSig = ws, sig
+		s.mu.Lock()
+		st := t.state
+		s.mu.Unlock()
+		if st == tParked || st == tDone || st == tDead {
+			return false
+		}
+		time.Sleep(150 * time.Microsecond)
+	}
+	t.blockedAt = first + "|" + firstSig
+	return true
+}
+
+// settleBlocked waits until every blocked task is either still blocked (in a Go
+// wait state) or has parked / finished by itself: a task woken by the step that
+// just ended runs to its next point before the next decision is taken.
+func (s *Sched) settleBlocked(tasks []*Task) bool {
+	deadline := time.Now().Add(s.Watchdog)
+	for _, t := range tasks {
+		for {
+			s.mu.Lock()
+			st := t.state
+			s.mu.Unlock()
+			if st != tBlocked {
+				break
+			}
+			// Had the step that just ended woken it, the runtime would have made
+			// it runnable at once, so one look is enough as long as it is found
+			// exactly where it was judged blocked. Anywhere else (it woke and
+			// waits a moment for a lock on its way to the next point) needs the
+			// full judgement again.
+			if ws, sig := goroutineWaitState(t.goid); isBlockedState(ws) {
+				s.mu.Lock()
+				st = t.state
+				s.mu.Unlock()
+				if st != tBlocked {
+					break // it parked in the meantime (a parked task also sits in a wait state)
+				}
+				if ws+"|"+sig == t.blockedAt || s.stablyBlocked(t) {
+					break
+				}
+			}
+			if time.Now().After(deadline) {
+				s.Trouble = fmt.Sprintf("watchdog: blocked task %s neither parked nor blocked again within %s", t.Name, s.Watchdog)
+				return false
+			}
+			time.Sleep(20 * time.Microsecond)
+		}
+	}
+	return true
+}
+
 func (s *Sched) wait(t *Task) string {
 	timer := time.NewTimer(s.Watchdog)
 	defer timer.Stop()
+	var poll <-chan time.Time
+	if s.DetectBlocked {
+		tk := time.NewTicker(400 * time.Microsecond)
+		defer tk.Stop()
+		poll = tk.C
+	}
 	for {
 		select {
+		case <-poll:
+			if s.stablyBlocked(t) {
+				s.mu.Lock()
+				if t.state == tRunning {
+					t.state = tBlocked
+					s.Blocks++
+					s.mu.Unlock()
+					return "blocked"
+				}
+				s.mu.Unlock()
+			}
 		case ev := <-s.events:
 			if ev.kind == "crashed" {
 				return "crashed"
@@ -394,6 +536,58 @@ func (s *Sched) Interleave(tasks []*Task, choices []int) string {
 		last = t.ID
 		switch k := s.Step(t); k {
 		case "parked", "done":
+		default:
+			return k
+		}
+	}
+}
+
+// InterleaveBlocking drives tasks to completion like Interleave, for code whose
+// tasks may block on one another between points (DetectBlocked). Returns
+// "done", "deadlock" (unfinished tasks, none runnable) or a trouble kind.
+func (s *Sched) InterleaveBlocking(tasks []*Task, choices []int) string {
+	ci := 0
+	last := -1
+	for {
+		if !s.settleBlocked(tasks) {
+			return "trouble"
+		}
+		if s.OnDecision != nil {
+			s.OnDecision(s.Steps)
+		}
+		var run []*Task
+		blocked := 0
+		s.mu.Lock()
+		for _, t := range tasks {
+			switch t.state {
+			case tParked:
+				run = append(run, t)
+			case tBlocked:
+				blocked++
+			}
+		}
+		s.mu.Unlock()
+		if len(run) == 0 {
+			if blocked > 0 {
+				return "deadlock"
+			}
+			return "done"
+		}
+		c := 0
+		if ci < len(choices) {
+			c = choices[ci]
+			ci++
+		}
+		if c < 0 {
+			c = -c
+		}
+		t := run[c%len(run)]
+		if last != -1 && last != t.ID {
+			s.Switches++
+		}
+		last = t.ID
+		switch k := s.Step(t); k {
+		case "parked", "done", "blocked":
 		default:
 			return k
 		}
